@@ -44,6 +44,8 @@ type Clause struct {
 	Props []string
 	Loop  int
 	Mark  string
+	NoAssume bool // at-clause that is proved but not added to the path condition
+	GhostTarget string // ghostnew: NAME(key) of the ghost heap entry that gets a fresh value
 	Text  string
 	Expr  SE
 	Pos   string
@@ -68,6 +70,7 @@ type FuncSpec struct {
 	LoopMod   map[int][]string // extra havoc names
 	LoopOwned map[int][]string
 	LoopGhost map[int][]*LoopGhost // specification-only loop variables
+	Pathwise  bool             // no state merging at joins: every obligation is proved path by path
 	Unlocked  bool             // callback must be invoked with no level>=1 lock held
 	Covers    []*Clause
 	Decreases []*Clause
@@ -154,7 +157,7 @@ func NewSpecDB() *SpecDB {
 var keywords = map[string]bool{"func": true, "callback": true, "method": true, "props": true, "requires": true,
 	"ensures": true, "onpanic": true, "loop": true, "at": true, "maypanic": true, "effect": true, "trusted": true,
 	"ghost": true, "axiom": true, "event": true, "guarded": true, "immutable": true, "lockinv": true, "level": true,
-	"inline": true, "def": true, "unlocked": true, "cover": true, "alias": true, "initwriter": true, "setteronly": true, "atomic": true, "effectstruct": true, "chaninv": true, "fact": true, "ghostheap": true, "modifies": true, "iterate": true}
+	"inline": true, "def": true, "unlocked": true, "cover": true, "alias": true, "initwriter": true, "setteronly": true, "atomic": true, "effectstruct": true, "chaninv": true, "fact": true, "ghostheap": true, "modifies": true, "iterate": true, "pathwise": true}
 
 var reLabel = regexp.MustCompile(`^\[([^\]]+)\]\s*`)
 var reProps = regexp.MustCompile(`^\{([^}]*)\}\s*`)
@@ -235,6 +238,8 @@ func (db *SpecDB) LoadFile(path string) error {
 			cur.Inline = true
 		case "unlocked":
 			cur.Unlocked = true
+		case "pathwise":
+			cur.Pathwise = true
 		case "alias":
 			cur.Alias = strings.TrimSpace(rest)
 		case "fact":
@@ -332,16 +337,41 @@ func (db *SpecDB) LoadFile(path string) error {
 				return fail(fmt.Errorf("unknown loop clause %q", sub))
 			}
 		case "at":
-			k := strings.Index(rest, " assert ")
+			// `at MARK ghostnew NAME(key) with E`: ghost update - the ghost heap entry gets a
+			// fresh value about which E (the observations defining it) is assumed
+			if k := strings.Index(rest, " ghostnew "); k >= 0 {
+				mark := strings.TrimSpace(rest[:k])
+				body := rest[k+len(" ghostnew "):]
+				w := strings.Index(body, " with ")
+				if w < 0 {
+					return fail(fmt.Errorf("expected `at MARK ghostnew NAME(key) with EXPR`"))
+				}
+				c, err := parseClause("ghostnew", body[w+len(" with "):], pos)
+				if err != nil {
+					return fail(err)
+				}
+				c.Mark = mark
+				c.GhostTarget = strings.TrimSpace(body[:w])
+				cur.Asserts = append(cur.Asserts, c)
+				break
+			}
+			// `at MARK assert E`: proved, then assumed; `at MARK check E`: proved only
+			kw := " assert "
+			k := strings.Index(rest, kw)
 			if k < 0 {
-				return fail(fmt.Errorf("expected `at MARK assert EXPR`"))
+				kw = " check "
+				k = strings.Index(rest, kw)
+			}
+			if k < 0 {
+				return fail(fmt.Errorf("expected `at MARK assert|check EXPR`"))
 			}
 			mark := strings.TrimSpace(rest[:k])
-			c, err := parseClause("assert", rest[k+len(" assert "):], pos)
+			c, err := parseClause("assert", rest[k+len(kw):], pos)
 			if err != nil {
 				return fail(err)
 			}
 			c.Mark = mark
+			c.NoAssume = kw == " check "
 			cur.Asserts = append(cur.Asserts, c)
 		case "ghost":
 			m := regexp.MustCompile(`^(\w+)\(([^)]*)\)\s*(\S+)$`).FindStringSubmatch(rest)
